@@ -5,8 +5,8 @@
    unsigned ([wf_ity t]); the only arithmetic hypothesis is the standard's: the size of the index
    space ([product] of the extents, resp. REQUIRED-SPAN-SIZE for layout_stride) is representable in
    the index type.  Model functions (Model.v) on the left, closed forms (Spec.v) on the right. *)
-From Tetl Require Import Lib.Base C19.Model C19.Spec C19.ProofsArith C19.ProofsExt C19.ProofsSpec
-  C19.ProofsLayout C19.ProofsMore C19.ProofsSpan C19.ProofsEnum C19.ProofsTop.
+From Tetl Require Import Lib.Base C19.Slices C19.Model C19.Spec C19.ProofsArith C19.ProofsExt C19.ProofsSpec
+  C19.ProofsLayout C19.ProofsMore C19.ProofsSpan C19.ProofsEnum C19.ProofsTop C19.ProofsSub C19.ProofsBuf C19.ProofsSpan2.
 From Coq Require Import Permutation.
 Local Open Scope Z_scope.
 
@@ -82,6 +82,13 @@ Proof.
   exact (conj (ext_default_wf t p Hwf) (conj (ext_from_span_wf t p vals Hwf) (ext_convert_wf t p t' e' Hwf))).
 Qed.
 Print Assumptions C19_extents_wf.
+
+(* operator== (also between different index types and patterns; the layout_left/right mappings compare
+   their extents with it): true exactly when rank and all extents agree *)
+Theorem C19_extents_eq : forall t1 e1 t2 e2,
+  ext_eqb t1 e1 t2 e2 = true <-> extents_list t1 e1 = extents_list t2 e2.
+Proof. exact ext_eqb_spec. Qed.
+Print Assumptions C19_extents_eq.
 
 (* fwd_prod_of_extents / rev_prod_of_extents: the product of the leading / trailing extents mod 2^64 *)
 Theorem C19_products : forall t e i,
@@ -220,6 +227,33 @@ Theorem C19_mdspan_access : forall l t e idx, wf_ity t -> wf_ext t e ->
 Proof. exact mds_offset_formula. Qed.
 Print Assumptions C19_mdspan_access.
 
+(* exactly the elements spanned, at the level of the buffer: reading an mdspan<T, E, layout_right> at every
+   multi-index, in index order, yields the first size() elements of the buffer in order; layout_left yields a
+   permutation of the same elements (each exactly once); no in-range access leaves the buffer *)
+Theorem C19_mdspan_reads_prefix : forall (A : Type) (buf : list A) t e, wf_ity t -> wf_ext t e ->
+  Forall (fun x => 0 <= x) (extents_list t e) -> product (extents_list t e) <= imax t ->
+  product (extents_list t e) <= Z.of_nat (length buf) ->
+  map (mds_get buf LRight t e) (all_indices (extents_list t e))
+  = map Some (firstn (Z.to_nat (product (extents_list t e))) buf).
+Proof. exact mds_right_reads_prefix. Qed.
+Print Assumptions C19_mdspan_reads_prefix.
+
+Theorem C19_mdspan_left_reads_permutation : forall (A : Type) (buf : list A) t e, wf_ity t -> wf_ext t e ->
+  Forall (fun x => 0 <= x) (extents_list t e) -> product (extents_list t e) <= imax t ->
+  product (extents_list t e) <= Z.of_nat (length buf) ->
+  Permutation (map (mds_get buf LLeft t e) (all_indices (extents_list t e)))
+              (map Some (firstn (Z.to_nat (product (extents_list t e))) buf)).
+Proof. exact mds_left_reads_permutation. Qed.
+Print Assumptions C19_mdspan_left_reads_permutation.
+
+Theorem C19_mdspan_access_inside_buffer : forall (A : Type) (buf : list A) l t e idx, wf_ity t -> wf_ext t e ->
+  in_range idx (extents_list t e) -> product (extents_list t e) <= imax t ->
+  product (extents_list t e) <= Z.of_nat (length buf) ->
+  exists a, mds_get buf l t e idx = Some a
+            /\ nth_error buf (Z.to_nat (spec_offset l (extents_list t e) idx)) = Some a.
+Proof. exact mds_get_inside. Qed.
+Print Assumptions C19_mdspan_access_inside_buffer.
+
 Theorem C19_mapping_conversion : forall l t1 e1 t2 e2 idx, wf_ity t1 -> wf_ity t2 ->
   extents_list t2 e2 = extents_list t1 e1 -> in_range idx (extents_list t1 e1) ->
   product (extents_list t1 e1) <= imax t1 -> product (extents_list t1 e1) <= imax t2 ->
@@ -237,6 +271,20 @@ Theorem C19_submdspan_extents : forall t e sl, wf_ity t -> wf_ext t e ->
   /\ pat (sub_extents t e sl) = keep_full sl (pat e).
 Proof. exact sub_extents_spec. Qed.
 Print Assumptions C19_submdspan_extents.
+
+(* the same with pair-like slices (first, last) of run-time values (the code after fix 857745d): for every
+   rank, pattern, index type and slice choice meeting the precondition of [mdspan.sub.extents]
+   (0 <= first <= last <= extent, 0 <= index < extent) the builder does not overflow and returns a well-formed
+   extents object with exactly the kept dimensions: extent and static-ness of the full_extent ones,
+   last - first with a dynamic extent for the pair ones *)
+Theorem C19_submdspan_extents_pairs : forall t e sl, wf_ity t -> wf_ext t e ->
+  Forall2 slice_ok sl (extents_list t e) ->
+  exists r, sub_extents_p t e sl = Some r
+            /\ extents_list t r = sub_shape sl (extents_list t e)
+            /\ pat r = sub_pattern sl (pat e)
+            /\ wf_ext t r.
+Proof. exact sub_extents_p_spec. Qed.
+Print Assumptions C19_submdspan_extents_pairs.
 
 (** * span *)
 (* subspan(offset, count): offset + count <= size -> exactly those elements of the parent, inside it *)
@@ -308,6 +356,33 @@ Theorem C19_span_index : forall s i, 0 <= i ->
 Proof. exact sp_index_spec. Qed.
 Print Assumptions C19_span_index.
 
+(* "the equivalent pointer arithmetic on the original range": first(c) is subspan(0, c) (contract included),
+   last(c) is subspan(size() - c, c), a subspan of a subspan is the subspan at the sum of the offsets, and the
+   compile-time form subspan<O, C>() designates the same window as subspan(O, C) *)
+Theorem C19_span_first_is_subspan : forall s c, size_ok s -> 0 <= c ->
+  sp_sub_d s 0 (Some c) = rbind (sp_first_d s c) (fun r => Ok (mk_span None (s_off r + 0) (s_size r))).
+Proof. exact sp_first_is_subspan. Qed.
+Print Assumptions C19_span_first_is_subspan.
+
+Theorem C19_span_last_is_subspan : forall s c, size_ok s -> 0 <= c <= s_size s ->
+  sp_last_d s c = sp_sub_d s (s_size s - c) (Some c).
+Proof. exact sp_last_is_subspan. Qed.
+Print Assumptions C19_span_last_is_subspan.
+
+Theorem C19_span_subspan_compose : forall s o c o' c', size_ok s -> 0 <= o -> 0 <= c -> o + c <= s_size s ->
+  0 <= o' -> 0 <= c' -> o' + c' <= c ->
+  exists r, sp_sub_d s o (Some c) = Ok r
+            /\ sp_sub_d r o' (Some c') = Ok (mk_span None (s_off s + (o + o')) c')
+            /\ sp_sub_d s (o + o') (Some c') = Ok (mk_span None (s_off s + (o + o')) c').
+Proof. exact sp_subspan_compose. Qed.
+Print Assumptions C19_span_subspan_compose.
+
+Theorem C19_span_static_dynamic_agree : forall s o c, size_ok s -> sp_consistent s -> 0 <= o <= s_size s ->
+  match c with Some n => 0 <= n <= s_size s - o | None => True end ->
+  exists r, sp_sub_d s o c = Ok r /\ s_off r = s_off (sp_sub_s s o c) /\ s_size r = s_size (sp_sub_s s o c).
+Proof. exact sp_static_dynamic_agree. Qed.
+Print Assumptions C19_span_static_dynamic_agree.
+
 (** * the representability hypothesis is necessary *)
 Theorem C19_narrow_index_wraps :
   let e := ext_from_pack i8 [None; None] [16; 16] in
@@ -322,6 +397,20 @@ Theorem C19_int_index_overflows :
 Proof. exact int_index_overflows. Qed.
 Print Assumptions C19_int_index_overflows.
 
+(* for unsigned index types of at least int width operator() is total: it wraps, it is never undefined;
+   for uint16_t the multiplication happens in int and overflows (tied to the code through GCC's constant
+   evaluator: ce_probe cases) *)
+Theorem C19_unsigned_index_total : forall l t e idx ss, sgn t = false -> 32 <= bits t ->
+  (exists o, lay_map l t e idx = Some o) /\ (exists o, strided_map t (strided_ctor t e ss) idx = Some o).
+Proof. exact unsigned_index_total. Qed.
+Print Assumptions C19_unsigned_index_total.
+
+Theorem C19_u16_index_overflows :
+  strided_map u16 (strided_ctor u16 (ext_from_pack u16 [None] [65535]) [65535]) [65535] = None
+  /\ strided_map u16 (strided_ctor u16 (ext_from_pack u16 [None] [65535]) [46340]) [46340] = Some 43024.
+Proof. exact u16_index_overflows. Qed.
+Print Assumptions C19_u16_index_overflows.
+
 (* non-vacuity: the hypotheses are met by ordinary shapes, incl. a mixed pattern with a zero-free
    index space, a strided padded/permuted layout and a span request *)
 Example C19_nonvacuous :
@@ -335,7 +424,9 @@ Example C19_nonvacuous :
   /\ strided_map i32 (strided_ctor i32 (ext_from_pack i32 [None; None] [2; 3]) [4; 1]) [1; 2] = Some 6
   /\ sp_valid [10; 11; 12; 13; 14] (mk_span None 1 4)
   /\ sp_sub_d (mk_span None 1 4) 1 (Some 2) = Ok (mk_span None 2 2)
-  /\ sp_elems [10; 11; 12; 13; 14] (mk_span None 2 2) = [12; 13].
+  /\ sp_elems [10; 11; 12; 13; 14] (mk_span None 2 2) = [12; 13]
+  /\ Forall2 slice_ok [SlFull; SlPair 1 3; SlIndex 0] (extents_list i32 e)
+  /\ option_map (extents_list i32) (sub_extents_p i32 e [SlFull; SlPair 1 3; SlIndex 0]) = Some [2; 2].
 Proof.
   cbv zeta. repeat split; try (vm_compute; intuition congruence); try (repeat constructor; vm_compute; congruence).
   - exists [(2, 4); (3, 1)]. split; [apply Permutation_refl | cbn; lia].
